@@ -345,7 +345,8 @@ def rand_cfg(rnd, focus="all"):
             c["sorts"].append({"e": ICTX_INDEX, "desc": rnd.random() < 0.7})        # the record ordinal as the last key: ties in reverse arrival order
         if c["selects"] and rnd.random() < 0.15:
             # (a name that is given to two selections is not referred to: which of the two /name/ means is not documented)
-            once = [x for x in c["selects"] if sum(1 for y in c["selects"] if y["name"] == x["name"]) == 1]
+            # (nor is the whole record a sort key: the mutual order of different objects is not documented either)
+            once = [x for x in c["selects"] if sum(1 for y in c["selects"] if y["name"] == x["name"]) == 1 and x["e"] != SELF]
             if once:
                 c["sorts"][0] = {"e": {"op": "sel", "name": rnd.choice(once)["name"]}, "desc": rnd.random() < 0.5}
     if focus in ("all", "limit", "group", "stop") and rnd.random() < (0.5 if focus == "all" else 0.9):
